@@ -148,6 +148,22 @@ func runSeq(idx int, seed int64, nops int, size uint64, prof string, unstable bo
 	fi := Exec(r.srv, Op{Proc: "fsinfo"}, root, nil)
 	pc := Exec(r.srv, Op{Proc: "pathconf"}, root, nil)
 	g.wtmax, g.maxfs, g.nmax = fi.Wtmax, fi.Maxfs, pc.Namemax
+	var script []Op
+	switch prof {
+	case "limits":
+		script = limitsScript(fi.Wtmax, fi.Maxfs, pc.Namemax, g.rng)
+	case "paging":
+		script = pagingScript(g.rng, idx)
+	}
+	if script != nil {
+		r.noCache = prof == "paging"
+		for _, o := range script {
+			fmt.Fprintln(of, o.Sym())
+			r.Step(o)
+		}
+		r.Close()
+		return
+	}
 	for i := 0; i < nops; i++ {
 		if g.p.Reclaim && i >= nops*6/10 {
 			g.deleting = true
